@@ -5,11 +5,12 @@
 (* dirs: process-directory name -> contents (an abstract digest of the      *)
 (* files written: which model, which storage mode).  The name of a new      *)
 (* directory is derived from the clock; it may collide with an existing one *)
-(* - then the save raises and nothing changes.                              *)
+(* - then the save raises and nothing changes (what the code does), or, in  *)
+(* the equally admissible design Rename = TRUE, another fresh name is used. *)
 (*  Overwrite = TRUE is the named wrong design mkdir(exist_ok=True).        *)
 (***************************************************************************)
 EXTENDS Integers, FiniteSets
-CONSTANTS Names, Models, Overwrite, MaxSaves
+CONSTANTS Names, Models, Overwrite, Rename, MaxSaves
 VARIABLES dirs, last, nsaves        \* last: outcome of the last call
 
 vars == <<dirs, last, nsaves>>
@@ -19,8 +20,12 @@ Init == dirs = [n \in {} |-> 0] /\ last = [op |-> "none"] /\ nsaves = 0
 Save(model, safe, name) ==
   /\ nsaves < MaxSaves /\ nsaves' = nsaves + 1
   /\ IF name \in DOMAIN dirs /\ ~Overwrite
-     THEN /\ last' = [op |-> "save", outcome |-> "raise", name |-> name]
-          /\ UNCHANGED dirs
+     THEN \/ /\ last' = [op |-> "save", outcome |-> "raise", name |-> name]
+             /\ UNCHANGED dirs
+          \/ /\ Rename
+             /\ \E n2 \in Names \ DOMAIN dirs :
+                   /\ dirs' = [n \in DOMAIN dirs \cup {n2} |-> IF n = n2 THEN Content(model, safe) ELSE dirs[n]]
+                   /\ last' = [op |-> "save", outcome |-> "ok", name |-> n2]
      ELSE /\ dirs' = [n \in DOMAIN dirs \cup {name} |-> IF n = name THEN Content(model, safe) ELSE dirs[n]]
           /\ last' = [op |-> "save", outcome |-> "ok", name |-> name]
 Load(name, safe) ==
